@@ -257,6 +257,27 @@ static void wide_family(vt::rng& g, int count)
     }
 }
 
+// a boundary that is exactly the largest canonical number below one: weights {2^digits - 1, 1} (total 2^digits, the quotient is exact),
+// surrounded by disabled channels.  The half-open intervals [C(i-1)/S, C(i)/S) give the largest number to the channel of weight one and
+// everything below it to the other.
+template <typename T>
+static void top_boundary(int lead, int trail)
+{
+    int const digits = std::numeric_limits<T>::digits;
+    std::vector<T> w((std::size_t) lead, T());
+    w.push_back(std::ldexp(T(1), digits) - T(1));
+    w.push_back(T(1));
+    for (int i = 0; i != trail; ++i) w.push_back(T());
+    std::uint64_t top = (~0ULL >> (64 - digits)) << (64 - digits);
+    std::uint64_t unit = 1ULL << (64 - digits);
+    std::vector<std::uint64_t> raws{top, top - unit, top - 2 * unit, 0ULL, unit};
+    vt::script_engine e(vt::script_registry::add(raws));
+    hep::discrete_distribution<std::size_t, T> d(w.begin(), w.end());
+    std::vector<long long> idx;
+    for (std::size_t i = 0; i != raws.size(); ++i) idx.push_back((long long) d(e));
+    vt::ev("PickTop").s("T", vt::type_name<T>::get()).i("digits", digits).i("lead", lead).i("trail", trail).a("idx", idx).i("draws", (long long) e.pos()).emit();
+}
+
 static bool dyadic_sum(std::vector<int> const& w)
 {
     int S = 0;
@@ -321,6 +342,8 @@ int main(int argc, char** argv)
         run_dd<long double>(w, js, 1.0L, "1");
         if (k % 2) run_mc<double>(w, js, 1.0L, "1"); else run_mc<float>(w, js, 1.0L, "1");
     }
+    for (int lead = 0; lead != 3; ++lead)
+        for (int trail = 0; trail != 3; ++trail) { top_boundary<float>(lead, trail); top_boundary<double>(lead, trail); top_boundary<long double>(lead, trail); }
     raw_family(g, thorough ? 1500 : 300);
     wide_family<float>(g, thorough ? 1000 : 200); wide_family<double>(g, thorough ? 1000 : 200); wide_family<long double>(g, thorough ? 1000 : 200);
     any_family<float>(g, thorough ? 3000 : 600); any_family<double>(g, thorough ? 3000 : 600); any_family<long double>(g, thorough ? 3000 : 600);
